@@ -609,8 +609,9 @@ def implicit_keyword_rule(chk, prog, rule="KWMEM"):
     nlocal = 0
     is_mem_fact = lambda t: t.endswith("->mem_disp") or t.endswith(".mem_disp")
     for fn, f in lib.items():
-        if any(c.get("kind") == "CallExpr" and callee_name(c) in ("strtok_r", "strstr") for c in walk(prog.body(f))):
-            continue        # the tokeniser sets the explicit keywords
+        if any(c.get("kind") == "CallExpr" and callee_name(c) in ("strtok_r", "strstr") for c in walk(prog.body(f))) or \
+                any("char" in qtype(p_) and "*" in qtype(p_) for p_ in prog.params(f)):
+            continue        # the tokeniser sets the explicit keywords: it works on the text of the operand
         if not any(m.get("kind") == "MemberExpr" and m.get("name") in KW for m in walk(prog.body(f))):
             continue
         # a store that the function itself guards by the memory-operand test needs nothing from its callers
